@@ -164,6 +164,80 @@ PROPS = {
             "statement is in Properties/C01.v",
         ],
     ),
+    "C15": dict(
+        prop_file="Properties/C15.v",
+        check_module="C15Check",
+        theorems={
+            "C15_emit_index_sound": [],
+            "C15_compile_error_loc": [],
+            "C15_repeat_count_index_resolves": [],
+            "C15_loop_error_at": [],
+            "C15_step_frames_ok": [],
+            "C15_error_trace_shape": [],
+            "C15_nested_error_keeps_payload_only": [],
+            "C15_reported_head_is_compiler_entry": [],
+            "C15_error_head_resolves": [],
+        },
+        n_quick=300, n_thorough=3000,
+        gen_timeout=3000,
+        gates=["stream.scenario", "stream.planted", "stream.unplanted", "stream.compile",
+               "fault.setprop_nontable", "fault.dyncall_nonfunction", "fault.missing_native", "fault.missing_global",
+               "fault.native_error", "fault.native_conversion", "fault.value_stack", "fault.call_stack",
+               "fault.timeout_loop", "fault.foreach_nontable",
+               "hop.call_absolute", "hop.call_bare", "hop.call_imported_function", "hop.call_imported_module",
+               "hop.dyncall_function_value", "hop.dyncall_variable", "hop.closure_inline", "hop.closure_variable",
+               "hop.std_map", "hop.native_call1", "hop.native_rb1", "hop.std_sorted_by_key",
+               "wrap.repeat.body", "wrap.while.body", "wrap.foreach.body", "wrap.if_else.else", "wrap.array.item",
+               "planted.in_submodule", "planted.in_called_function", "planted.depth.6", "head.in_submodule",
+               "head.in_std", "trace.ns_depth>=2", "trace.through_std", "trace.len.>20", "trace.len.4-6",
+               "base.kind.vmgen", "base.kind.corpus", "base.kind.progs", "base.kind.chain",
+               "unplanted.timeout", "unplanted.own_error",
+               "cfault.EmptySetVar", "cfault.EmptyClosureArg", "cfault.BadCall", "cfault.BadImportedCall",
+               "cfault.TooManySuper", "cfault.TooManyLocals", "cfault.TooManyUpvalues", "cfault.BadImport",
+               "cplanted.in_submodule", "witness.nested_trace_dropped", "witness.function_level_head"],
+        rule="four streams, every case run on the real crate (compile + Vm::run with the native menu of the VM "
+             "stream), every trace entry resolved through the crate's own Module::get_card (namespace -> submodule "
+             "path, `std` -> stdlib::standard_library(), then CardIndex) and cards identified by CardId tags: "
+             "(scenario, 40%) generated module trees (submodules to depth 3, function / module imports, shuffled "
+             "function tables) with a call chain main -> f1 .. fk, k <= 5, hops = Call by absolute / bare / imported "
+             "name, DynamicCall of a function value / variable, inline and stored closures, std.map / filter / any, "
+             "native callbacks call0 / call1 / rb1 / std.sorted_by_key / std.min_by_key; every hop and the fault nested "
+             "0-3 levels in 24 kinds of control-flow / expression wrappers; exactly one fault (15 kinds: wrong-type "
+             "operand x7, missing native, missing global, native error, native conversion error, value-stack "
+             "exhaustion x2, unbounded recursion, endless loop under a small budget); the whole expected trace is "
+             "known. (planted, 30%) programs that run to completion (VM corpus, progs.rs, vmgen, modgen, fault-free "
+             "chains) with Composite[marker, fault, original] planted at a random card position; the marker in the host "
+             "log tells whether the position was reached; chain checked for consistency. (unplanted, 12%) programs that "
+             "fail by themselves or under budgets 1..300. (compile, 18%) modules with one planted compile error (empty "
+             "variable in SetVar / ReadVar / SetGlobalVar / closure argument / ForEach / Repeat, unresolvable Call / "
+             "Function / imported name, too many `super.`, 256th local, 256th upvalue, bad import). Code 1: "
+             "Compiler.compile + Vm.run on the module term predict another payload or trace, or CardEdit.get_card "
+             "another card kind, or a trace entry of the model's own output does not resolve / keys not increasing. "
+             "Code 2 (observations + planted data only): trace[0] resolves to the planted card (by position and by "
+             "CardId), later entries are the expected call cards innermost first (scenario) or call cards that call "
+             "the function of the entry before (others), optional final entry in main; compile error loc = planted card. "
+             "Non-trivial = trace of >= 2 entries or a compile case; distinct = distinct case term",
+        trusted_base=COMMON_TB + [
+            "modelled, not verified: compiler.rs (trace bookkeeping), vm.rs (_run, payload_to_error, run_function), "
+            "vm/instr_execution.rs, compiler/module.rs (get_card), compiler/card.rs (get_child); the models are "
+            "Compiler.v, Vm.v, CardEdit.v; C15Link.to_vm numbers the Trace values by their position in the sorted trace list",
+            "the harness's resolver (namespace -> submodule by first name match, `std` -> stdlib) and its CardId tags; "
+            "Flocq binary64 (VmFloat.v) is used by the checker only",
+        ],
+        assumptions=[
+            "PARTIAL: error_trace_shape is proved for the VM model over arbitrary programs; that a program produced by "
+            "`compile m` has, at the address of every card-emitted instruction, the location of the emitting card is "
+            "proved per function (C15_emit_index_sound: every entry recorded while a function's cards are compiled "
+            "resolves to a card of that function, right namespace) - NOT proved: that the entry at a given address "
+            "is the one of the card that emitted that instruction (only: of a card of the function), and the lifting from "
+            "one function to `compile m` (flatten_module: namespace / function index of the IR stream vs. the module "
+            "tree); both are checked on every generated case (exact trace comparison, trace_resolves_of)",
+            "that each frame source other than 0 / label positions is the CallFunction of a Call / DynamicCall card is "
+            "checked (oracle), not proved",
+            "natives are the fixed menu of Vm.v; errors raised inside a nested run (native callbacks) surface at the "
+            "native's call site (known class 12); OutOfMemory is not in the stream (no allocator in Vm.v)",
+        ],
+    ),
     "C14": dict(
         prop_file="Properties/C14.v",
         check_module="C14Check",
